@@ -4,7 +4,7 @@
 -- for the freshly translated functions (values [], [A5], [A5 0F FF]; offsets -2..25; ranges -4..4).
 -- Missing for the full statements: loop invariants for the nested counting loops (BitCount) and the relation between
 -- UInt8 shifts (model) and Int shifts (translation) for symbolic offsets.
--- functions: ds/str String.SetBit, ds/str String.BitCountByBit, ds/str String.getBit
+-- functions: ds/str String.SetBit
 -- properties: C01
 -- import: NodisVerif.Model.DsStr
 -- import: NodisVerif.Proofs.GoLibLemmas
@@ -19,11 +19,6 @@ theorem str_SetBit_eq_model_partial :
     smallVals.all (fun v => offsets.all fun o => [true, false].all fun b =>
       (str.String_.SetBit ⟨v⟩ o b).map (fun r => (r.1.V, r.2)) ==
         .ok (let m := DsStr.setBit (some v) o b; (m.1.getD [], m.2))) = true := by
-  decide +kernel
-
-theorem str_BitCountByBit_eq_model_partial :
-    smallVals.all (fun v => bounds.all fun a => bounds.all fun b =>
-      str.String_.BitCountByBit ⟨v⟩ (a * 3) (b * 6) == .ok (DsStr.bitCountByBit (some v) (a * 3) (b * 6))) = true := by
   decide +kernel
 
 end NodisVerif.TranslatedTie
